@@ -308,6 +308,20 @@ def gen_cases(rng, tier):
         if case["out"]["kind"] == "wstdout":
             case["opts"]["list"] = False  # `-l -w -` interleaves the binary stream header with the listing
         cases.append(case)
+    # one very large record (a 17 MiB value) in the middle of an intact source: it and everything after it come out;
+    # the projection keeps the observed output small
+    if tier != "search":
+        DBIG = ["test/big", [["varint", "k"], ["bytes", "blob"]]]
+        gen = {"_generated": ["dt", [2022, 3, 4, 5, 6, 7, 0], "utc", 0]}
+        big = [["rec", DBIG, [V.I(1), V.B(b"ab")], gen], ["rec", DBIG, [V.I(2), ["zeros", 17 * 2 ** 20]], gen],
+               ["rec", DBIG, [V.I(3), V.B(b"")], gen], ["rec", DBIG, [V.I(4), V.B(b"z")], gen]]
+        for fmt, outw in (("records", "jsonlines"), ("records.gz", "csv")):
+            o = {"skip": 0, "count": None, "selector": None, "no_compile": False, "fields": ["k"], "exclude": None,
+                 "source": None, "classification": None, "multits": False, "list": False}
+            cases.append({"kind": "run", "bucket": "main", "opts": o,
+                          "sources": [{"type": "good", "format": fmt, "records": big},
+                                      {"type": "good", "format": "records", "records": big[:1]}],
+                          "out": {"kind": "mode", "what": outw, "split": None, "suffix": 2, "also_mode": None}})
     # more parts than --suffix-length digits can number (out.9 -> out.10, out.99 -> out.100): no part may be overwritten
     r2 = rng.fork("manyparts")
     for per, suffix, total in ((1, 1, 12), (2, 1, 23)) + (((1, 2, 103),) if tier == "thorough" else ()):
